@@ -3,3 +3,4 @@ import Driver.Ops.Data
 import Driver.Ops.Reply
 import Driver.Ops.Proxy
 import Driver.Ops.Envelope
+import Driver.Ops.Policy
